@@ -139,6 +139,7 @@ def run(ctx, env):
 
     # R7.3
     nfb = 0
+    fb_decoders = set()
     for b in prog.bodies.values():
         if b.derived or "parse_le" in b.path:
             continue
@@ -155,11 +156,13 @@ def run(ctx, env):
                 continue
             nfb += 1
             d = decoder_of(b.path)
+            fb_decoders.add(d or b.path)
             ok = d is not None and bool(guarded_decoders.get(d)) and all(guarded_decoders[d])
             ctx.ob("R7.3", b.path, "fallback-unreachable:%s.%s" % (recv[3].rsplit("::", 1)[1], recv[2]), ok,
                    "default-template fallback in %s; %s" % (d or "a non-decoder function", "all callers are guarded by contains_key" if ok else "not proven unreachable"),
                    site=b.line(blk))
-    ctx.floor("R7.3", "crate", "unwrap_or_default fallbacks on cache lookups", nfb, 5)
+    ctx.count("cache_lookup_fallback_sites", nfb)
+    ctx.floor("R7.3", "crate", "decoders with a default-template fallback on their cache lookup", len(fb_decoders), 4)
     for d in ("variable_versions::ipfix::Data", "variable_versions::ipfix::OptionsData"):
         b = prog.body(d + "::parse_be")
         if not ctx.anchor("R7.3", d + "::parse_be", b):
